@@ -37,3 +37,14 @@ Fixpoint tree_boolZ (env : zenv) (t : tree) : option bool :=
   | Br c t f => match evalZB false env c with Some true => tree_boolZ env t | Some false => tree_boolZ env f | None => None end
   | _ => None
   end.
+
+(* value of a selection-type expression (inputs, integer constants, casts) on the tag environment
+   component i of argument a = 10(a+1)+i+1 : used to print concrete expected values for replays *)
+Fixpoint evalTag (e : expr) : option Z :=
+  match e with
+  | V _ a i => Some (10 * (a + 1) + i + 1)
+  | Cz _ z => Some z
+  | Cf _ s m 0 => Some (if s then - m else m)
+  | Cv _ _ x => evalTag x
+  | _ => None
+  end.
